@@ -468,6 +468,11 @@ class Process:
             # APIs which don't use _raise_if_pid_reused().
             msg = "process no longer exists and its PID has been reused"
             raise NoSuchProcess(self.pid, self._name, msg=msg)
+        if self._gone:
+            # We already know the process is gone, so is_running()
+            # returned early without checking who owns the PID now: if
+            # the PID exists (again) it belongs to another process.
+            raise NoSuchProcess(self.pid, self._name)
 
     @property
     def pid(self):
